@@ -10,6 +10,7 @@ import (
 	"reflect"
 	"strconv"
 	"strings"
+	"time"
 
 	"verifharness/hx"
 )
@@ -33,6 +34,12 @@ type Runner struct {
 	failSeen map[string]int
 	somRef   [][2]string // reference list of the ordered-map history: (key text, value text) in order
 	somHist  []string
+	encCalls int
+	decCalls int
+	// inRange: encodings Encode produced for values all of whose timestamps lie in [0, MaxInt64] ns — inputs whose
+	// stamps are known to lie inside the int64-nanosecond range, so the canonical oracle need not skip them when the
+	// decoded stamp is the saturation value
+	inRange map[string]bool
 }
 
 // fail reports an oracle failure, at most 25 times per signature: hx keeps 2000 findings per run and
@@ -80,7 +87,20 @@ func (x *Runner) Encode(v reflect.Value, validation bool) (b []byte, outcome str
 	var err error
 	before := customMemory(x.Env.Schema, v)
 	tableIntact()
+	// Encode must not change the value it encodes (sorting a slice in place, swapping bytes of a big.Int …)
+	textBefore := ""
+	checkValue := x.encCalls%3 == 0 || x.R.Replay != ""
+	x.encCalls++
+	if checkValue {
+		textBefore = ValText(x.Env.Schema, v, TextOpts{})
+	}
 	p := hx.Safely(func() { b, err = x.Env.API.Encode(ctxBg, v.Interface(), x.Env.Opts(validation)...) })
+	if checkValue {
+		if textAfter := ValText(x.Env.Schema, v, TextOpts{}); textAfter != textBefore {
+			x.fail("aliasing", fmt.Sprintf("Encode changed the value it was given: before %s after %s; %s", clip(textBefore, 300), clip(textAfter, 300), x.where())+
+				x.replay("enc "+flagName(validation)+" "+textBefore), x.sig("encode-mutated-value", "value", validation))
+		}
+	}
 	// Encode must not write into memory owned by the values it encodes (custom Serializable types hand
 	// out views into their own backing arrays)
 	if after := customMemory(x.Env.Schema, v); before != after {
@@ -107,15 +127,70 @@ func (x *Runner) Encode(v reflect.Value, validation bool) (b []byte, outcome str
 func (x *Runner) Decode(b []byte, validation bool) (v reflect.Value, n int, outcome string) {
 	dst := reflect.New(x.Env.Top)
 	var err error
+	// the caller's buffer belongs to the caller: a private copy is kept and compared after the call
+	orig := append([]byte(nil), b...)
 	p := hx.Safely(func() { n, err = x.Env.API.Decode(ctxBg, b, dst.Interface(), x.Env.Opts(validation)...) })
+	if !bytes.Equal(orig, b) {
+		x.fail("aliasing", fmt.Sprintf("Decode modified its input buffer: before %s after %s; %s", clip(hexs(orig), 200), clip(hexs(b), 200), x.where())+
+			x.replay("dec "+flagName(validation)+" "+hexs(orig)), x.sig("decode-mutated-input", "input", validation))
+		copy(b, orig)
+	}
 	switch {
 	case p != "":
-		return reflect.Value{}, 0, "panic"
+		v, outcome = reflect.Value{}, "panic"
 	case err != nil:
-		return reflect.Value{}, 0, "err"
+		v, n, outcome = reflect.Value{}, 0, "err"
+	default:
+		v, outcome = dst.Elem(), "ok"
+	}
+	// decoding the very same buffer a second time (and with the other validation mode) must agree with the first time
+	x.decCalls++
+	if outcome != "panic" && (x.decCalls%2 == 0 || x.R.Replay != "") {
+		first := outcome
+		if outcome == "ok" {
+			first = fmt.Sprintf("ok %s %d", ValText(x.Env.Schema, v, TextOpts{Norm: true}), n)
+		}
+		dst2 := reflect.New(x.Env.Top)
+		var n2 int
+		var err2 error
+		p2 := hx.Safely(func() { n2, err2 = x.Env.API.Decode(ctxBg, b, dst2.Interface(), x.Env.Opts(validation)...) })
+		second := "ok"
+		switch {
+		case p2 != "":
+			second = "panic"
+		case err2 != nil:
+			second = "err"
+		default:
+			second = fmt.Sprintf("ok %s %d", ValText(x.Env.Schema, dst2.Elem(), TextOpts{Norm: true}), n2)
+		}
+		if second != first {
+			x.fail("aliasing", fmt.Sprintf("two Decode calls on the same buffer disagree: first %s, second %s; input %s; %s", clip(first, 300), clip(second, 300), clip(hexs(orig), 200), x.where())+
+				x.replay("dec "+flagName(validation)+" "+hexs(orig)), x.sig("decode-twice", "input", validation))
+		}
+		if validation && outcome == "ok" {
+			// what the validating decoder accepts, the plain decoder accepts with the same result
+			dst3 := reflect.New(x.Env.Top)
+			var n3 int
+			var err3 error
+			p3 := hx.Safely(func() { n3, err3 = x.Env.API.Decode(ctxBg, b, dst3.Interface(), x.Env.Opts(false)...) })
+			third := "ok"
+			switch {
+			case p3 != "":
+				third = "panic"
+			case err3 != nil:
+				third = "err"
+			default:
+				third = fmt.Sprintf("ok %s %d", ValText(x.Env.Schema, dst3.Elem(), TextOpts{Norm: true}), n3)
+			}
+			if third != first {
+				x.fail("aliasing", fmt.Sprintf("Decode without validation disagrees with the validated Decode of the same buffer: %s vs %s; input %s; %s", clip(first, 300), clip(third, 300), clip(hexs(orig), 200), x.where())+
+					x.replay("dec v "+hexs(orig)), x.sig("decode-modes", "input", validation))
+			}
+		}
+		copy(b, orig)
 	}
 
-	return dst.Elem(), n, "ok"
+	return v, n, outcome
 }
 
 // Exec executes one op line and returns the implementation's answer.
@@ -124,6 +199,7 @@ func (x *Runner) Exec(op string) string {
 	switch f[0] {
 	case "type":
 		x.Env = nil
+		x.inRange = nil
 		x.typeLine = op
 		if len(f) < 3 {
 			return "err"
@@ -261,6 +337,15 @@ func (x *Runner) execEnc(v reflect.Value, validation bool) string {
 	if out != "ok" {
 		return out
 	}
+	if stampsInRange(s, v) {
+		if x.inRange == nil {
+			x.inRange = map[string]bool{}
+		}
+		x.inRange[string(b)] = true
+	}
+	if validation {
+		x.rulesOracle(s, v, "encode", "enc v "+ValText(s, v, TextOpts{}))
+	}
 	if x.Prop != "C01" {
 		return "ok " + hexs(b)
 	}
@@ -327,9 +412,16 @@ func (x *Runner) execDec(b []byte, validation bool) string {
 
 		return fmt.Sprintf("ok %s %d", ValText(s, d, TextOpts{}), n)
 	}
+	if validation {
+		x.rulesOracle(s, d, "decode", "dec v "+hexs(b))
+	}
 	if validation && x.Prop == "C03" {
 		x.R.Count("c03:accepted")
-		if InTimeRange(s, d) {
+		known := x.inRange[string(b[:n])] || (s.K == KTime && n == 8 && b[7] < 0x80)
+		if known && !InTimeRange(s, d) {
+			x.R.Count("c03:saturation-value-from-in-range-input")
+		}
+		if InTimeRange(s, d) || known {
 			b2, out2 := x.Encode(d, true)
 			if out2 != "ok" || !bytes.Equal(b2, b[:n]) {
 				x.fail("canonical", fmt.Sprintf("validated Decode accepted %s (n=%d) but re-encoding gives %s %s; value=%s %s",
@@ -608,4 +700,147 @@ func (s *Schema) HostileLoop() bool {
 	})
 
 	return bad
+}
+
+// stampsInRange: every timestamp inside v lies in [0, MaxInt64] nanoseconds (nothing for the encoder to saturate).
+func stampsInRange(s *Schema, v reflect.Value) bool {
+	ok := true
+	walkValue(s, v, func(n *Schema, nv reflect.Value) {
+		if n.K == KTime {
+			ns := TimeNanos(nv.Interface().(time.Time))
+			if ns.Sign() < 0 || ns.Cmp(maxInt64Big) > 0 {
+				ok = false
+			}
+		}
+	})
+
+	return ok
+}
+
+// walkValue visits every (schema node, value) pair of a value.
+func walkValue(s *Schema, v reflect.Value, f func(*Schema, reflect.Value)) {
+	f(s, v)
+	switch s.K {
+	case KSlice, KArray:
+		for i := 0; i < v.Len(); i++ {
+			walkValue(s.Elem, v.Index(i), f)
+		}
+	case KMap:
+		iter := v.MapRange()
+		for iter.Next() {
+			walkValue(s.Key, iter.Key(), f)
+			walkValue(s.Elem, iter.Value(), f)
+		}
+	case KStruct:
+		for _, fl := range s.Fields {
+			walkValue(fl.T, v.Field(fl.Index), f)
+		}
+	case KPtr:
+		if !v.IsNil() {
+			walkValue(s.Elem, v.Elem(), f)
+		}
+	case KIface:
+		if !v.IsNil() {
+			cv := v.Elem()
+			for _, a := range s.Alts {
+				if a.GoType == cv.Type() {
+					walkValue(a.T, cv, f)
+				}
+			}
+		}
+	}
+}
+
+// elemCode: the object code a collection element starts with, when its type has one (interface alternative,
+// struct / byte array / custom type registered with a code, pointer to one).
+func elemCode(s *Schema, v reflect.Value) (uint32, bool) {
+	switch s.K {
+	case KIface:
+		if v.IsNil() {
+			return 0, false
+		}
+		for _, a := range s.Alts {
+			if a.GoType == v.Elem().Type() {
+				return a.Code, true
+			}
+		}
+
+		return 0, false
+	case KPtr:
+		if v.IsNil() {
+			return 0, false
+		}
+
+		return elemCode(s.Elem, v.Elem())
+	case KStruct, KByteArr, KCustom:
+		if s.Code != nil {
+			return s.Code.N, true
+		}
+	}
+
+	return 0, false
+}
+
+// rulesOracle: what the validating Encode / Decode accepted satisfies the array rules that can be judged on the
+// value itself, independently of the byte level: element count within the bounds, every must-occur type present,
+// and no type twice under an at-most-one-of-each-type rule (for elements that carry an object code).
+func (x *Runner) rulesOracle(s *Schema, v reflect.Value, side string, op string) {
+	walkValue(s, v, func(n *Schema, nv reflect.Value) {
+		if n.K != KSlice && n.K != KArray && n.K != KMap {
+			return
+		}
+		r := n.Rules
+		cnt := uint(nv.Len())
+		if (r.Min != 0 && cnt < r.Min) || (r.Max != 0 && cnt > r.Max) {
+			x.fail("rules", fmt.Sprintf("validated %s accepted a collection of %d elements, bounds min=%d max=%d; %s", side, cnt, r.Min, r.Max, x.where())+x.replay(op),
+				x.sig("rules-bounds", side, true))
+		}
+		if n.K == KMap || (len(r.Must) == 0 && !r.One8 && !r.One32) {
+			return
+		}
+		seen := map[uint32]int{}
+		coded := true
+		for i := 0; i < nv.Len(); i++ {
+			c, ok := elemCode(n.Elem, nv.Index(i))
+			if !ok {
+				coded = false
+
+				break
+			}
+			seen[c]++
+		}
+		if !coded {
+			return
+		}
+		for _, m := range r.Must {
+			if seen[m] == 0 {
+				x.fail("rules", fmt.Sprintf("validated %s accepted a collection without the must-occur type %d (types present: %v); %s", side, m, seen, x.where())+x.replay(op),
+					x.sig("rules-must-occur", side, true))
+			}
+		}
+		if (r.One8 && n.Elem.codeDen() == "u8") || (r.One32 && n.Elem.codeDen() == "u32") {
+			for c, k := range seen {
+				if k > 1 {
+					x.fail("rules", fmt.Sprintf("validated %s accepted a collection with type %d occurring %d times under an at-most-one-of-each-type rule; %s", side, c, k, x.where())+x.replay(op),
+						x.sig("rules-type-unique", side, true))
+				}
+			}
+		}
+	})
+}
+
+// codeDen: the denotation of the object codes the elements of this type start with ("" when unknown / mixed).
+func (s *Schema) codeDen() string {
+	switch s.K {
+	case KIface:
+		return s.Den
+	case KPtr:
+		return s.Elem.codeDen()
+	case KStruct, KByteArr, KCustom:
+		if s.Code != nil {
+			return s.Code.Den
+		}
+	}
+
+	return ""
 }
